@@ -124,7 +124,24 @@ func emitClient(c *Ctx, depth int, steps []string) string {
 		}
 	}
 	out := c.Emit("teicl " + strconv.Itoa(depth) + " " + strings.Join(final, " "))
-	for _, part := range strings.Split(out, " | ") {
+	for i, part := range strings.Split(out, " | ") {
+		// the property end to end, read off the real code's answer: a `go` was sent for a call that carried a
+		// per-move time, and the engine installed no deadline or a later one
+		if i < len(steps) && strings.HasPrefix(steps[i], "mv:") && strings.Contains(part, "go") {
+			f := strings.Split(steps[i], ":")
+			if f[3] != "-" && strings.Contains(part, "~go") && (strings.Contains(part, "] ok ") || strings.Contains(part, "] hang ")) {
+				rem, _ := strconv.ParseInt(f[3], 10, 64)
+				for _, w := range strings.Fields(part) {
+					if w == "dl=-" {
+						c.Count("client.VIOLATES:per-move-time-given-but-no-deadline-installed")
+					} else if strings.HasPrefix(w, "dl=") {
+						if d, err := strconv.ParseInt(w[3:], 10, 64); err == nil && d > rem {
+							c.Count("client.VIOLATES:deadline>per-move-time")
+						}
+					}
+				}
+			}
+		}
 		switch {
 		case strings.HasPrefix(part, "["):
 			j := strings.Index(part, "] ")
